@@ -288,6 +288,42 @@ def run_grid(case):
                 bad.add("c", "get_neighbors (as a set, self excluded) differs from the reference neighbour set", i=i,
                         ci=coords[i], form=fname, got=repr(g)[:120], expected=sorted(nb[i]))
 
+    # ---- (c') the relation follows the setting of each axis also when the setting is CHANGED on an existing grid object
+    #      (set_boundary_conditions after the grid has been queried), and back
+    import copy as _copy
+    Gc = _copy.deepcopy(G)
+    orig_bc = dict(sp["bc"])
+    for flip in ("x", "y", "z", "all"):
+        nbc = dict(orig_bc)
+        for ax in ("x", "y", "z"):
+            if flip in (ax, "all"):
+                nbc[ax] = "periodical" if nbc[ax] == "reflecting" else "reflecting"
+        sp2 = dict(sp, bc=nbc)
+        nb2 = neighbor_sets(sp2)
+        ok, e_ = _try(Gc.set_boundary_conditions, dict(nbc))
+        if not ok:
+            bad.add("c", "set_boundary_conditions raised on valid conditions", bc=nbc, error=e_)
+            continue
+        for i in range(n):
+            ok, g = _try(Gc.get_neighbors, i)
+            cnt["c_get_neighbors_after_bc_change"] += 1
+            if not ok or ({int(v) for v in g} - {i}) != nb2[i]:
+                bad.add("c", "after set_boundary_conditions: get_neighbors does not follow the new setting", i=i,
+                        old_bc=orig_bc, new_bc=nbc, got=repr(g)[:120], expected=sorted(nb2[i]))
+                break
+        for i in range(n):
+            for j in range(n):
+                if i != j:
+                    ok, a = _try(Gc.are_neighbors, i, j)
+                    cnt["c_pairs_after_bc_change"] += 1
+                    if not ok or bool(a) != (j in nb2[i]):
+                        bad.add("c", "after set_boundary_conditions: are_neighbors does not follow the new setting", i=i, j=j,
+                                new_bc=nbc, got=repr(a), expected=(j in nb2[i]))
+                        break
+            else:
+                continue
+            break
+
     # ---- pure-diffusion constants ---------------------------------------------------
     hcell = sp["cell_vol"] ** (1.0 / 3.0)
     kd = desc["species"][0]["D"] / (hcell * hcell)          # first-order constant per face, 1/s
